@@ -17,6 +17,7 @@ type predEval struct {
 	ix    *PkgIndex
 	depth int
 	extra func(ast.Expr) (constant.Value, bool) // consulted first (expression-shaped subjects such as key[0])
+	funcs map[types.Object]*FuncInfo            // function-typed parameters bound to the declared function passed at the call judged
 }
 
 // bindEnv builds an Env from variable bindings, with conversions, nested predicate calls and array-literal lookups.
@@ -66,6 +67,21 @@ func (pe *predEval) bindEnv(bind map[types.Object]constant.Value) Env {
 					}
 				}
 				return nil, false
+			}
+			// a predicate received as a parameter, bound to the declared function the judged call passes
+			if id, isID := unparen(x.Fun).(*ast.Ident); isID && pe.funcs != nil && pe.depth < 6 {
+				if fn := pe.funcs[objOf(info, id)]; fn != nil {
+					var args []constant.Value
+					for _, a := range x.Args {
+						v, ok := evalConst(info, a, env)
+						if !ok {
+							return nil, false
+						}
+						args = append(args, v)
+					}
+					sub := &predEval{ix: pe.ix, depth: pe.depth + 1}
+					return sub.call(fn, args)
+				}
 			}
 			// nested predicate in the same package
 			if cf := callee(info, x); cf != nil && pe.depth < 6 {
